@@ -628,10 +628,15 @@ def c08_extra(ctx):
             if name.startswith('rules') and ('s' in o) and int(re.match(r'rules(\d+)', name).group(1)) > 1200:
                 continue
             reqs.append({'id': '%s_%s' % (name, o or 'd'), 'text': text, 'opts': o, 'compile': True, 'src': True, 'tree': True, 'name': name})
-    real = T.run_pegx_parallel(reqs, timeout=120)
+    real = T.run_pegx_parallel(reqs, timeout=600 if ctx.tier == 'quick' else 3600)      # (the 70000-rule grammars take minutes on a loaded machine)
     M = L.RunModule()
     for r, x in zip(reqs, real):
         if x.get('timeout'):
+            # a huge grammar that is merely slow is not a verdict; a SMALL grammar whose generation does not return is
+            # (the reversed-range replay of db22052 made `peg -switch` loop)
+            if not (r['name'].startswith('rules') and int(re.match(r'rules(\d+)', r['name']).group(1)) >= 3000):
+                ctx.add('spec', 'extra/generate', 'generation did not return within the time limit for the accepted grammar %s (opts "%s")' % (r['name'], r['opts']),
+                        {'grammar': r['text'][:3000], 'opts': r['opts'], 'name': r['name']})
             continue
         if not x.get('compiled'):
             ctx.add('spec', 'extra/generate', 'generation failed for an accepted grammar (%s, opts "%s"): %s' % (r['name'], r['opts'], (x.get('compileError') or x.get('syntaxError') or x.get('panic') or '')[:200]),
